@@ -318,7 +318,9 @@ def main(argv=None):
     specs = mod.shards(tier, seed)
     ctx = multiprocessing.get_context("fork")
     crashed = []
-    with ctx.Pool(min(JOBS, max(1, len(specs))), initializer=_pool_init) as pool:
+    # one fresh (forked) process per shard: no state of an earlier shard -- Hypothesis caches,
+    # imported-module state -- can influence a later one, whatever the scheduling
+    with ctx.Pool(min(JOBS, max(1, len(specs))), initializer=_pool_init, maxtasksperchild=1) as pool:
         for status, spec, payload in pool.imap_unordered(
                 _worker, [(mod.__name__, s) for s in specs]):
             if status != "ok":
